@@ -14,6 +14,7 @@ Obs == ndJsonDeserialize("obs.ndjson")
 
 Apply(w, s) ==
   CASE s.a = "Update"  -> IF s.ack THEN Update(w, s.req) ELSE w
+    [] s.a = "UpdateRejected" -> IF s.ack THEN Update(w, s.req) ELSE UpdateRejected(w, s.req)
     [] s.a = "Scrape"  -> Scrape(w, s.h, s.ok, s.kept, s.total)
     [] s.a = "Restart" -> Restart(w)
     [] s.a = "Tick"    -> Tick(w)
@@ -47,7 +48,7 @@ Walk(id, w, steps, k) ==
            d  == Diff(Proj(w2), s.post) \cup (IF SamplesBad(w, s) THEN {"samples"} ELSE {})
        IN IF d # {}
             THEN {[id |-> id, k |-> k, a |-> s.a, fields |-> d,
-                   newentry |-> (s.a \in {"Update", "Restart"}),
+                   newentry |-> (s.a \in {"Update", "UpdateRejected", "Restart"}),
                    expected |-> Proj(w2), observed |-> s.post]}
             ELSE Walk(id, w2, steps, k + 1)
 
